@@ -39,12 +39,26 @@ Fixpoint split_str_go (sep str : bytes) (skip : nat) (cur : bytes) (cnt limit : 
       end
   end.
 
+(** empty separator (split.cpp:105-120, with fixes/C19/11 applied): every character is a part of its own until
+    limit - 1 parts have been emitted; the rest of the string is the last part *)
+Fixpoint split_empty_go (str : bytes) (cnt limit : N) : list bytes :=
+  match str with
+  | [] => []
+  | c :: rest =>
+      if limit <=? cnt + 1 then [str]
+      else [c] :: split_empty_go rest (cnt + 1) limit
+  end.
+
 Definition split_str (sep str : bytes) (limit : N) : list bytes :=
   if limit =? 0 then []
   else match sep with
-       | [] => map (fun c => [c]) str
+       | [] => split_empty_go str 0 limit
        | _ => split_str_go sep str 0 [] 0 limit
        end.
+
+(** the empty-separator branch as shipped in 704fd0b: the limit is not consulted *)
+Definition split_str_empty_shipped (str : bytes) (limit : N) : list bytes :=
+  if limit =? 0 then [] else map (fun c => [c]) str.
 
 (** min_fields overloads: [into->resize(min_fields)] when shorter *)
 Definition pad_fields (l : list bytes) (min_fields : N) : list bytes :=
